@@ -4,7 +4,7 @@ from fractions import Fraction
 from .vals import *
 from .ir import *
 from .sym import Interp, PathEnd, MemViolation, Stats, CondVal, sizeof
-from .fdom import BitsDom, RealDom, U
+from .fdom import BitsDom, RealDom, UFDom, U
 from . import smt
 
 CT = {  # c type -> (kind, bits)
@@ -65,6 +65,7 @@ class Case:
     def smt_logic(s):
         if s.logic: return s.logic
         uf = getattr(s, 'uses_uf', False)
+        if s.dom == 'uf': return 'QF_UFBV'
         if s.dom == 'real': return 'QF_UFNRA' if uf else 'QF_NRA'
         hasf = any(a.kind == 'f' for a in s.args)
         if hasf: return None if uf else 'QF_BVFP'
@@ -83,6 +84,7 @@ class Case:
 
     # ---- symbolic inputs
     def mkdom(s):
+        if s.dom == 'uf': return UFDom()
         return BitsDom() if s.dom == 'bits' else RealDom(s.div, s.nameall)
 
     def sym_scalar(s, a):
@@ -259,7 +261,7 @@ class Vars(dict):
 
     def el(s, name, i):
         a = s.bufs[name]
-        if a.kind == 'f' and s.case.dom == 'real': return z3.Real(a.var(i))
+        if a.kind == 'f' and s.case.dom == 'real': return z3.Real(a.var(i))   # ('uf' and 'bits' use bit-vectors)
         return z3.BitVec(a.var(i), a.w)
 
     def fp(s, name, i):
